@@ -15,6 +15,9 @@ def walls_of(kind, ws, we):
 
 
 def drive(ctx):
+    from .. import gr
+
+    gr.replay(ctx)          # behaviours of the Session state machine, real objects threaded
     q = ctx.quick()
     full = ctx.backend == "rs" or not q
     rnd = ctx.rnd
